@@ -32,7 +32,11 @@ fn tri<T: Sc>(t: &mut Toks, cx: &mut Ctx, to_q: Option<fn(&T) -> Option<Q>>) -> 
     let n = main.len();
     let sizes_ok = n >= 1 && sub.len() == n - 1 && sup.len() == n - 1;
     let tm = match built {
-        Err(c) => { cx.check(!sizes_ok, "constructor rejected valid diagonals"); return format!("!{}", c); }
+        Err(c) => { cx.check(!sizes_ok, "constructor rejected valid diagonals");
+            // the Vector-based constructor has its own guard: it must reject the same diagonals
+            let b2 = guarded(|| Tridiagonal::with_vectors(Vector::create(sub.clone()), Vector::create(main.clone()), Vector::create(sup.clone())));
+            cx.check(b2.is_err(), "with_vectors accepted diagonals of the wrong lengths");
+            return format!("!{} {}", c, match b2 { Ok(_) => "accepted".to_string(), Err(c2) => format!("!{}", c2) }); }
         Ok(x) => { cx.check(sizes_ok, "constructor accepted diagonals of the wrong lengths"); x }
     };
     let snap = tm.clone();
